@@ -271,7 +271,9 @@ class RecordHistory(Engine):
                             "product": rng.choice(PRODUCTS), "cutoff": rng.choice([0, 5, 20])})
             elif kind == "add_sub":
                 counter["s"] += 1
-                ops.append({"op": kind, "id": f"s{counter['s']}", "loc": area_parts(3, rng.choice([10, 40, 120]))})
+                # labels from a tiny set, locations tie-rich: subregions equal in every attribute do occur
+                ops.append({"op": kind, "id": f"s{counter['s']}", "loc": area_parts(3, rng.choice([10, 40, 120])),
+                            "label": rng.choice(["", "lbl", "lbl"])})
             elif kind == "lookup":
                 parts = area_parts(1, rng.choice([10, 40, 150]))
                 ops.append({"op": kind, "loc": parts, "overlap": rng.random() < 0.5})
@@ -337,7 +339,7 @@ EXPECTED_PROBES = [
     "origin_area_overlaps_2", "region_covers_whole_record", "clear_create_cycle_2", "region_created",
     "implicit_region_recreation", "lookup_compound", "lookup_overlap_hits_origin_gene", "multi_region",
     "region_with_2_members", "op_rejected", "gene_renamed", "definition_cds", "multi_exon_gene",
-    "area_readded_after_clear",
+    "area_readded_after_clear", "identical_subregions",
 ]
 
 
@@ -480,9 +482,12 @@ class _Execution:
                     res.probe("origin_spanning_area")
                 return "ok"
             if kind == "add_sub":
-                sub = _MODS["SubRegion"](make_location(op["loc"]), tool="sim", label=op["id"])
+                sub = _MODS["SubRegion"](make_location(op["loc"]), tool="sim", label=op.get("label", op["id"]))
                 rec.add_subregion(sub)
-                self.subs[op["id"]] = {"loc": op["loc"], "obj": sub}
+                self.subs[op["id"]] = {"loc": op["loc"], "obj": sub, "label": op.get("label", op["id"])}
+                if any(spec["loc"] == op["loc"] and spec["label"] == self.subs[op["id"]]["label"]
+                       for key, spec in self.subs.items() if key != op["id"]):
+                    res.probe("identical_subregions")
                 if crosses(op["loc"]):
                     res.probe("origin_spanning_area")
                 return "ok"
@@ -942,7 +947,7 @@ class _Execution:
                 fresh.add_protocluster(proto)
                 new_proto_ids[id(proto)] = key
             for key, spec in sorted(self.subs.items()):
-                sub = _MODS["SubRegion"](make_location(spec["loc"]), tool="sim", label=key)
+                sub = _MODS["SubRegion"](make_location(spec["loc"]), tool="sim", label=spec.get("label", key))
                 fresh.add_subregion(sub)
                 new_sub_ids[id(sub)] = key
             fresh.create_candidate_clusters()
